@@ -76,7 +76,13 @@ type world struct {
 	defPort   *litefwd.RefusedPort // 25565 reserved (refusing), nil if not available
 }
 
-func newWorld(r *lib.Run) (*world, error) {
+func addCounters(pairs ...any) {
+	for i := 0; i+1 < len(pairs); i += 2 {
+		*(pairs[i].(*int)) += pairs[i+1].(int)
+	}
+}
+
+func newWorld(r *lib.Run, withDefaultPort bool) (*world, error) {
 	w := &world{acceptCnt: map[int]*atomic.Int64{}}
 	for i := 0; i < 3; i++ {
 		cnt := &atomic.Int64{}
@@ -99,8 +105,10 @@ func newWorld(r *lib.Run) (*world, error) {
 		}
 		w.refused = append(w.refused, rp)
 	}
-	if rp, err := litefwd.ReserveRefused(25565); err == nil {
-		w.defPort = rp
+	if withDefaultPort {
+		if rp, err := litefwd.ReserveRefused(25565); err == nil {
+			w.defPort = rp
+		}
 	}
 	return w, nil
 }
@@ -362,7 +370,7 @@ func TestC30(t *testing.T) {
 	r.Assume("a forwarded connection is 'open' from the moment the backend's greeting byte reaches the client (lite.Forward pipes only after TrackConnection) until lite.Forward returned after the client closed")
 	r.Assume("two entries are the same backend iff equal after lower-casing the host and defaulting the port to 25565 (Gate's own canonicalBackendAddress); DNS aliases are different backends")
 
-	w, err := newWorld(r)
+	w, err := newWorld(r, true)
 	if err != nil {
 		r.Inconclusive("cannot set up loopback listeners: " + err.Error())
 		return
@@ -370,172 +378,210 @@ func TestC30(t *testing.T) {
 	defer w.close()
 	r.Set("default_port_25565_reserved", w.defPort != nil)
 
-	rng := r.Rng("seq")
-	nHist := r.N(300, 20000)
-	var attempts, forwarded, failedAttempts, multiTry, conservationChecks, orderChecked int
-	stratCount := map[string]int{}
-	dupKinds := map[string]int{}
-
-	for hI := 0; hI < nHist; hI++ {
-		strat := strategies[rng.Intn(len(strategies))]
-		aliasFree := rng.Intn(3) == 0
-		n := 1 + rng.Intn(6)
-		var backends []string
-		allAccept := rng.Intn(4) == 0
-		for i := 0; i < n; i++ {
-			backends = append(backends, w.genEntry(rng, allAccept || rng.Intn(2) == 0, aliasFree))
+	nHist := r.N(300, 12000)
+	var attemptsT, forwardedT, failedAttemptsT, multiTryT, conservationChecksT, orderCheckedT int
+	stratCountT := map[string]int{}
+	dupKindsT := map[string]int{}
+	var cmu sync.Mutex // guards the counters above
+	seqWorkers := 4
+	worlds := []*world{w}
+	for i := 1; i < seqWorkers; i++ {
+		wi, err := newWorld(r, false)
+		if err != nil {
+			r.Inconclusive("cannot set up loopback listeners: " + err.Error())
+			return
 		}
-		if rng.Intn(3) == 0 && n < 6 { // force an exact duplicate
-			backends = append(backends, backends[rng.Intn(len(backends))])
-		}
-		h := &hist{Strategy: strat, Backends: backends, Host: "play.example.org", Latency: map[string]int{}}
-		// classify duplicate kinds present
-		for i := range backends {
-			for j := i + 1; j < len(backends); j++ {
-				ki, _, _, _, _ := canon(backends[i])
-				kj, _, _, _, _ := canon(backends[j])
-				if ki == kj {
-					dupKinds[strings.TrimPrefix(retrySignature(backends[i], backends[j]), "backend-retried-")]++
-				}
-			}
-		}
-		routes := []config.Route{{Host: []string{"*.example.org"}, Backend: backends, Strategy: config.Strategy(strat)}}
-		sm := lite.NewStrategyManager()
-		measured := map[string]time.Duration{}
-		if strat == "lowest-latency" {
-			for _, b := range backends {
-				if rng.Intn(2) == 0 {
-					ms := 1 + rng.Intn(50)
-					k, _, _, _, _ := canon(b)
-					if _, dup := measured[k]; dup && aliasFree {
-						continue
-					}
-					sm.RecordLatency(b, time.Duration(ms)*time.Millisecond)
-					measured[k] = time.Duration(ms) * time.Millisecond
-					h.Latency[b] = ms
-				}
-			}
-		}
-		r.LogCase(h)
-		stratCount[strat]++
-		steps := 1 + rng.Intn(8)
-		var opened []*attempt
-		openBy := map[string]int{}
-		openBySp := map[string]int{}
-		rrExpect := 0
-		rrJudgeable := strat == "round-robin" && allAccept
-		if rrJudgeable {
-			ks := map[string]bool{}
-			for _, b := range backends {
-				k, _, _, _, _ := canon(b)
-				if ks[k] {
-					rrJudgeable = false
-				}
-				ks[k] = true
-			}
-		}
-		bad := false
-		for st := 0; st < steps && !bad; st++ {
-			if len(opened) > 0 && rng.Intn(3) == 0 {
-				i := rng.Intn(len(opened))
-				a := opened[i]
-				opened = append(opened[:i], opened[i+1:]...)
-				h.Steps = append(h.Steps, "close "+a.FwdTo)
-				if !a.closeWait() {
-					r.Inconclusive("Forward did not return after the client closed")
-					bad = true
-					break
-				}
-				k, _, _, _, _ := canon(a.FwdTo)
-				openBy[k]--
-				openBySp[a.FwdTo]--
-			} else {
-				before := map[int]int64{}
-				for p, c := range w.acceptCnt {
-					before[p] = c.Load()
-				}
-				a := open(routes, sm, h.Host, 3*len(backends)+6)
-				attempts++
-				r.Eval(1)
-				if !a.Done {
-					r.Inconclusive("attempt neither forwarded nor closed within the watchdog")
-					bad = true
-					break
-				}
-				h.Steps = append(h.Steps, fmt.Sprintf("open -> tries %v fwd=%v", a.Tries, a.Forwarded))
-				if len(a.Tries) == 0 {
-					r.Inconclusive("no backend try was logged for a routed connection (log messages changed?)")
-					bad = true
-					break
-				}
-				if len(a.Tries) > 1 {
-					multiTry++
-				}
-				checkAttempt(r, w, h, a, openBy, openBySp, measured, aliasFree)
-				orderChecked++
-				// listeners' view: exactly one accept iff forwarded, on the forwarded port
-				var acc int64
-				for p, c := range w.acceptCnt {
-					acc += c.Load() - before[p]
-				}
-				if want := int64(0); a.Forwarded {
-					want = 1
-					if acc != want {
-						r.Inconclusive(fmt.Sprintf("listeners accepted %d connections during a forwarded attempt (want 1)", acc))
-					}
-				} else if acc != 0 && !a.Guard {
-					r.Inconclusive(fmt.Sprintf("listeners accepted %d connections during a failed attempt", acc))
-				}
-				if a.Forwarded {
-					forwarded++
-					if rrJudgeable {
-						want := backends[rrExpect%len(backends)]
-						if a.FwdTo != want {
-							r.Violation("round-robin-rotation-broken", "round-robin with all backends healthy: consecutive connections did not rotate through the list",
-								map[string]any{"backends": backends, "connection_index": rrExpect, "want": want, "got": a.FwdTo, "history": h.Steps})
-						}
-						rrExpect++
-					}
-					opened = append(opened, a)
-					k, _, _, _, _ := canon(a.FwdTo)
-					openBy[k]++
-					openBySp[a.FwdTo]++
-				} else {
-					failedAttempts++
-					if a.Guard {
-						_ = a.closeWait()
-					} else if ok, _ := lib.Returns(30*time.Second, func() { <-a.s.LoopReturned() }); !ok {
-						r.Inconclusive("read loop did not end after a failed attempt")
-					}
-				}
-			}
-			// (5) conservation at this quiescent point
-			if got := int(sm.ActiveConnections()); got != len(opened) {
-				r.Violation("active-connections-not-conserved", "ActiveConnections() differs from the number of open forwarded connections at a quiescent point",
-					map[string]any{"active": got, "open": len(opened), "strategy": strat, "backends": backends, "history": h.Steps})
-			}
-			conservationChecks++
-		}
-		for _, a := range opened {
-			if !a.closeWait() {
-				r.Inconclusive("Forward did not return after the client closed")
-				bad = true
-			}
-		}
-		if !bad {
-			if got := sm.ActiveConnections(); got != 0 {
-				r.Violation("active-connections-not-zero-at-end", "ActiveConnections() is not zero after every forwarded connection closed",
-					map[string]any{"active": got, "strategy": strat, "backends": backends, "history": h.Steps})
-			}
-			conservationChecks++
-		}
-		if len(backends) >= 2 || steps >= 2 {
-			r.Distinct(fmt.Sprintf("%s|%v|%v", strat, backends, h.Steps))
-		}
-		if r.WantSample() {
-			r.Sample(h)
-		}
+		defer wi.close()
+		worlds = append(worlds, wi)
 	}
+	var swg sync.WaitGroup
+	for wk := 0; wk < seqWorkers; wk++ {
+		swg.Add(1)
+		go func(wk int, w *world) {
+			defer swg.Done()
+			rng := r.Rng(fmt.Sprintf("seq-%d", wk))
+			var attempts, forwarded, failedAttempts, multiTry, conservationChecks, orderChecked int
+			stratCount := map[string]int{}
+			dupKinds := map[string]int{}
+			defer func() {
+				cmu.Lock()
+				defer cmu.Unlock()
+				addCounters(&attemptsT, attempts, &forwardedT, forwarded, &failedAttemptsT, failedAttempts, &multiTryT, multiTry, &conservationChecksT, conservationChecks, &orderCheckedT, orderChecked)
+				for k, v := range stratCount {
+					stratCountT[k] += v
+				}
+				for k, v := range dupKinds {
+					dupKindsT[k] += v
+				}
+			}()
+			for hI := 0; hI < nHist/seqWorkers; hI++ {
+				strat := strategies[rng.Intn(len(strategies))]
+				aliasFree := rng.Intn(3) == 0
+				n := 1 + rng.Intn(6)
+				var backends []string
+				allAccept := rng.Intn(4) == 0
+				for i := 0; i < n; i++ {
+					backends = append(backends, w.genEntry(rng, allAccept || rng.Intn(2) == 0, aliasFree))
+				}
+				if rng.Intn(3) == 0 && n < 6 { // force an exact duplicate
+					backends = append(backends, backends[rng.Intn(len(backends))])
+				}
+				h := &hist{Strategy: strat, Backends: backends, Host: "play.example.org", Latency: map[string]int{}}
+				// classify duplicate kinds present
+				for i := range backends {
+					for j := i + 1; j < len(backends); j++ {
+						ki, _, _, _, _ := canon(backends[i])
+						kj, _, _, _, _ := canon(backends[j])
+						if ki == kj {
+							dupKinds[strings.TrimPrefix(retrySignature(backends[i], backends[j]), "backend-retried-")]++
+						}
+					}
+				}
+				routes := []config.Route{{Host: []string{"*.example.org"}, Backend: backends, Strategy: config.Strategy(strat)}}
+				sm := lite.NewStrategyManager()
+				measured := map[string]time.Duration{}
+				if strat == "lowest-latency" {
+					for _, b := range backends {
+						if rng.Intn(2) == 0 {
+							ms := 1 + rng.Intn(50)
+							k, _, _, _, _ := canon(b)
+							if _, dup := measured[k]; dup && aliasFree {
+								continue
+							}
+							sm.RecordLatency(b, time.Duration(ms)*time.Millisecond)
+							measured[k] = time.Duration(ms) * time.Millisecond
+							h.Latency[b] = ms
+						}
+					}
+				}
+				if wk == 0 {
+					r.LogCase(h)
+				}
+				stratCount[strat]++
+				steps := 1 + rng.Intn(8)
+				var opened []*attempt
+				openBy := map[string]int{}
+				openBySp := map[string]int{}
+				rrExpect := 0
+				rrJudgeable := strat == "round-robin" && allAccept
+				if rrJudgeable {
+					ks := map[string]bool{}
+					for _, b := range backends {
+						k, _, _, _, _ := canon(b)
+						if ks[k] {
+							rrJudgeable = false
+						}
+						ks[k] = true
+					}
+				}
+				bad := false
+				for st := 0; st < steps && !bad; st++ {
+					if len(opened) > 0 && rng.Intn(3) == 0 {
+						i := rng.Intn(len(opened))
+						a := opened[i]
+						opened = append(opened[:i], opened[i+1:]...)
+						h.Steps = append(h.Steps, "close "+a.FwdTo)
+						if !a.closeWait() {
+							r.Inconclusive("Forward did not return after the client closed")
+							bad = true
+							break
+						}
+						k, _, _, _, _ := canon(a.FwdTo)
+						openBy[k]--
+						openBySp[a.FwdTo]--
+					} else {
+						before := map[int]int64{}
+						for p, c := range w.acceptCnt {
+							before[p] = c.Load()
+						}
+						a := open(routes, sm, h.Host, 3*len(backends)+6)
+						attempts++
+						r.Eval(1)
+						if !a.Done {
+							r.Inconclusive("attempt neither forwarded nor closed within the watchdog")
+							bad = true
+							break
+						}
+						h.Steps = append(h.Steps, fmt.Sprintf("open -> tries %v fwd=%v", a.Tries, a.Forwarded))
+						if len(a.Tries) == 0 {
+							r.Inconclusive("no backend try was logged for a routed connection (log messages changed?)")
+							bad = true
+							break
+						}
+						if len(a.Tries) > 1 {
+							multiTry++
+						}
+						checkAttempt(r, w, h, a, openBy, openBySp, measured, aliasFree)
+						orderChecked++
+						// listeners' view: exactly one accept iff forwarded, on the forwarded port
+						var acc int64
+						for p, c := range w.acceptCnt {
+							acc += c.Load() - before[p]
+						}
+						if want := int64(0); a.Forwarded {
+							want = 1
+							if acc != want {
+								r.Inconclusive(fmt.Sprintf("listeners accepted %d connections during a forwarded attempt (want 1)", acc))
+							}
+						} else if acc != 0 && !a.Guard {
+							r.Inconclusive(fmt.Sprintf("listeners accepted %d connections during a failed attempt", acc))
+						}
+						if a.Forwarded {
+							forwarded++
+							if rrJudgeable {
+								want := backends[rrExpect%len(backends)]
+								if a.FwdTo != want {
+									r.Violation("round-robin-rotation-broken", "round-robin with all backends healthy: consecutive connections did not rotate through the list",
+										map[string]any{"backends": backends, "connection_index": rrExpect, "want": want, "got": a.FwdTo, "history": h.Steps})
+								}
+								rrExpect++
+							}
+							opened = append(opened, a)
+							k, _, _, _, _ := canon(a.FwdTo)
+							openBy[k]++
+							openBySp[a.FwdTo]++
+						} else {
+							failedAttempts++
+							if a.Guard {
+								_ = a.closeWait()
+							} else if ok, _ := lib.Returns(30*time.Second, func() { <-a.s.LoopReturned() }); !ok {
+								r.Inconclusive("read loop did not end after a failed attempt")
+							}
+						}
+					}
+					// (5) conservation at this quiescent point
+					if got := int(sm.ActiveConnections()); got != len(opened) {
+						r.Violation("active-connections-not-conserved", "ActiveConnections() differs from the number of open forwarded connections at a quiescent point",
+							map[string]any{"active": got, "open": len(opened), "strategy": strat, "backends": backends, "history": h.Steps})
+					}
+					conservationChecks++
+				}
+				for _, a := range opened {
+					if !a.closeWait() {
+						r.Inconclusive("Forward did not return after the client closed")
+						bad = true
+					}
+				}
+				if !bad {
+					if got := sm.ActiveConnections(); got != 0 {
+						r.Violation("active-connections-not-zero-at-end", "ActiveConnections() is not zero after every forwarded connection closed",
+							map[string]any{"active": got, "strategy": strat, "backends": backends, "history": h.Steps})
+					}
+					conservationChecks++
+				}
+				if len(backends) >= 2 || steps >= 2 {
+					r.Distinct(fmt.Sprintf("%s|%v|%v", strat, backends, h.Steps))
+				}
+				if wk == 0 && r.WantSample() {
+					r.Sample(h)
+				}
+			}
+		}(wk, worlds[wk])
+	}
+	swg.Wait()
+	attempts, forwarded, failedAttempts, multiTry, conservationChecks, orderChecked := attemptsT, forwardedT, failedAttemptsT, multiTryT, conservationChecksT, orderCheckedT
+	stratCount, dupKinds := stratCountT, dupKindsT
+	rng := r.Rng("seq")
 
 	// ---- family: backend template substituting to an unparseable address ----------------------------
 	nBad := r.N(12, 200)
@@ -582,7 +628,7 @@ func TestC30(t *testing.T) {
 	}
 
 	// ---- concurrent runs --------------------------------------------------------------------------
-	nConc := r.N(20, 500)
+	nConc := r.N(20, 300)
 	crng := r.Rng("conc")
 	var concConns, concChecks int
 	for c := 0; c < nConc; c++ {
